@@ -21,6 +21,8 @@ def families(tier):
         {'name': 'guided', 'strategy': lambda: imagegen.images(), 'examples': 1500 if q else 30000},
         {'name': 'dense8', 'strategy': lambda: imagegen.dense_w8(), 'examples': 1200 if q else 60000},
         {'name': 'assembled-programs', 'strategy': lambda: c07_programs(), 'examples': 8 if q else 300},
+        # runs of about 2^18 / 2^19 ops: the native loops poll signals and refresh their bookkeeping every 2^18 ops
+        {'name': 'long-rings', 'strategy': lambda: imagegen.long_rings(), 'examples': 2 if q else 60},
     ]
 
 
@@ -36,6 +38,8 @@ def pack_bytes(bits):
 
 def classify(case, ref):
     cl = ['w=%d' % case['w'], 'layout=' + case['layout'], 'cause=' + ref.cause]
+    if ref.ops >= (1 << 18) - 2:
+        cl.append('op count within 2 of a multiple of 2^18' if min(ref.ops % (1 << 18), (1 << 18) - ref.ops % (1 << 18)) <= 2 else 'more than 2^18 ops')
     cl += sorted(ref.flags)
     if ref.n_in:
         cl.append('reads input')
@@ -96,7 +100,7 @@ def run_case(case):
         ref = machine.run(w, segs, case['input_bits'], budget=60000)
     else:
         segs = case['segments']
-        ref = machine.run(w, segs, case['input_bits'])
+        ref = machine.run(w, segs, case['input_bits'], **({'budget': 1 << 21} if case.get('kind') == 'longring' else {}))
         path = engines.tmpdir() / 'c01.fjm'
         engines.write_image(path, w, segs, case['version'])
     if ref.cause == machine.BUDGET:
